@@ -36,6 +36,7 @@ type Scenario struct {
 	Root     int         `json:"root"` // index of the root-level user, -1 = none
 	Anon     int         `json:"anon"` // index of an anonymous-level user, -1 = none
 	Sessions []int       `json:"sessions"`
+	LP       []bool      `json:"lp,omitempty"` // per client slot: long-polling (JSON) transport instead of gRPC
 	Groups   []GroupSpec `json:"groups"`
 	P2P      [][2]int    `json:"p2p"`
 	NoMe     bool        `json:"no_me,omitempty"` // clients do not attach to 'me'
@@ -45,7 +46,11 @@ func genScenario(rt *rapid.T, maxUsers, maxGroups int, withRoot bool) Scenario {
 	sc := Scenario{Root: -1, Anon: -1}
 	sc.NUsers = rapid.IntRange(2, maxUsers).Draw(rt, "nusers")
 	for i := 0; i < sc.NUsers; i++ {
-		sc.Sessions = append(sc.Sessions, rapid.IntRange(1, 2).Draw(rt, "nsess"))
+		n := rapid.IntRange(1, 2).Draw(rt, "nsess")
+		sc.Sessions = append(sc.Sessions, n)
+		for k := 0; k < n; k++ {
+			sc.LP = append(sc.LP, rapid.IntRange(0, 2).Draw(rt, "lp") == 0)
+		}
 	}
 	if withRoot && rapid.Bool().Draw(rt, "hasroot") {
 		sc.Root = sc.NUsers - 1
@@ -105,7 +110,10 @@ func (w *simWorld) configure(sc Scenario) {
 	}
 	for i := 0; i < sc.NUsers; i++ {
 		for k := 0; k < sc.Sessions[i]; k++ {
-			w.addClient(w.Users[i])
+			c := w.addClient(w.Users[i])
+			if c.Idx < len(sc.LP) && sc.LP[c.Idx] {
+				c.Transport = TransportLP
+			}
 		}
 	}
 	w.Groups = make([]string, len(sc.Groups))
@@ -204,38 +212,38 @@ func (w *simWorld) userIdx(id string) int {
 // ---- white-box snapshot at quiescence ----------------------------------------------------------
 
 type SubSnap struct {
-	Want, Given   types.AccessMode
-	Online        int
+	Want, Given           types.AccessMode
+	Online                int
 	ReadID, RecvID, DelID int
-	Deleted, IsChan bool
-	Private       string
+	Deleted, IsChan       bool
+	Private               string
 }
 
 type TopicSnap struct {
-	Name     string
-	Cat      types.TopicCat
-	LastID   int
-	DelID    int
-	Owner    types.Uid
-	IsChan   bool
-	Status   int32
+	Name                   string
+	Cat                    types.TopicCat
+	LastID                 int
+	DelID                  int
+	Owner                  types.Uid
+	IsChan                 bool
+	Status                 int32
 	AccessAuth, AccessAnon types.AccessMode
-	Tags     []string
-	Public, Trusted string
-	PerUser  map[types.Uid]SubSnap
-	Sessions map[string]types.Uid // sid -> uid attached
-	ChanSess map[string]bool
-	HasCall  bool
+	Tags                   []string
+	Public, Trusted        string
+	PerUser                map[types.Uid]SubSnap
+	Sessions               map[string]types.Uid // sid -> uid attached
+	ChanSess               map[string]bool
+	HasCall                bool
 }
 
 type SessSnap struct {
-	Sid        string
-	Uid        types.Uid
-	AuthLvl    auth.Level
-	Subs       []string
-	Background bool
+	Sid         string
+	Uid         types.Uid
+	AuthLvl     auth.Level
+	Subs        []string
+	Background  bool
 	Terminating bool
-	Client     int // client index, -1 if not matched
+	Client      int // client index, -1 if not matched
 }
 
 type Snapshot struct {
@@ -275,6 +283,12 @@ func (w *simWorld) snapshot() *Snapshot {
 		if st, ok := s.grpcnode.(*grpcStream); ok && st != nil {
 			ss.Client = st.c.Idx
 			st.c.Sid = sid
+		} else if s.proto == LPOLL {
+			for _, c := range w.Clients {
+				if c.Transport == TransportLP && c.lpSid == sid && c.Connected {
+					ss.Client = c.Idx
+				}
+			}
 		}
 		sn.Sessions[sid] = ss
 	}
